@@ -28,6 +28,7 @@ type loopRT struct {
 	entrySt *State
 	headSt  *State
 	invs    []Clause
+	steps   []Clause
 	decr    *Clause
 	decrHead Term
 	props   []string
@@ -68,6 +69,7 @@ func (f *Frame) loopHeader(li *loopInfo) {
 		if ls := e.contract.Loops[li.ordinal]; ls != nil {
 			rt.invs = ls.Invariants
 			rt.decr = ls.Decreases
+			rt.steps = ls.Steps
 		}
 		rt.props = e.contract.Props
 	}
@@ -128,6 +130,10 @@ func (f *Frame) loopHeader(li *loopInfo) {
 	}
 	sort.Strings(names)
 	for _, k := range names {
+		if strings.HasPrefix(k, "ghost_itercalled_") {
+			f.st.heaps[k] = tFalse // "called in the current iteration of the innermost enclosing loop"
+			continue
+		}
 		f.st.heaps[k] = e.havoc(k+"@loop", eff.names[k])
 	}
 	if eff.alloc || eff.all {
@@ -223,6 +229,41 @@ func (f *Frame) backEdge(from, to *ssa.BasicBlock, cond Term) {
 		}
 		o := e.addObl("invariant-preserved", fmt.Sprintf("%s#invariant-preserved:loop%d:%s%s", top, li.ordinal, clauseLabel(inv, i), tag), cond, t, rt.props)
 		o.Text = inv.Text
+	}
+	for i, stp := range rt.steps {
+		// transition obligation: locals visible at the back edge's source block, prev(x) = head value
+		env := f.loopEnv(li, back, f.st)
+		for name, v := range f.localsDominating(from) {
+			if _, shadow := env.vars[name]; shadow {
+				continue
+			}
+			if pv, ok := f.vals[v]; ok {
+				env.vars[name] = SpecVal{T: e.valTerm(pv, v.Type()), Typ: v.Type(), V: pv}
+			}
+		}
+		for name, v := range f.localsIn(from) {
+			if pv, ok := f.vals[v]; ok {
+				if _, isPhiName := env.vars[name]; isPhiName {
+					continue
+				}
+				env.vars[name] = SpecVal{T: e.valTerm(pv, v.Type()), Typ: v.Type(), V: pv}
+			}
+		}
+		env.prev = map[string]SpecVal{}
+		for _, phi := range li.phis {
+			if phi.Comment != "" {
+				if hv, ok := rt.headPh[phi]; ok {
+					env.prev[phi.Comment] = SpecVal{T: hv.T, Typ: phi.Type(), V: hv}
+				}
+			}
+		}
+		t, err := env.evalBool(stp.Expr)
+		if err != nil {
+			e.specError(fmt.Sprintf("%s loop %d step %q: %v", top, li.ordinal, stp.Text, err))
+			continue
+		}
+		o := e.addObl("loop-step", fmt.Sprintf("%s#loop-step:loop%d:%s%s", top, li.ordinal, clauseLabel(stp, i), tag), cond, t, rt.props)
+		o.Text = stp.Text
 	}
 	if rt.decr != nil {
 		env := f.loopEnv(li, back, f.st)
@@ -659,6 +700,39 @@ func (f *Frame) loopEnv(li *loopInfo, phis map[*ssa.Phi]Value, st *State) *SpecE
 		env.vars[nm] = SpecVal{T: pv.T, Typ: phi.Type(), V: pv}
 	}
 	return env
+}
+
+// localsBefore: source variables as of just before instruction in (within its own block).
+func (f *Frame) localsBefore(in ssa.Instruction) map[string]ssa.Value {
+	out := map[string]ssa.Value{}
+	for _, x := range in.Block().Instrs {
+		if x == in {
+			break
+		}
+		dr, ok := x.(*ssa.DebugRef)
+		if !ok || dr.IsAddr {
+			continue
+		}
+		if obj := f.e.p.debugObj(dr); obj != "" {
+			out[obj] = dr.X
+		}
+	}
+	return out
+}
+
+// localsIn: source variables whose latest value is defined in block b itself.
+func (f *Frame) localsIn(b *ssa.BasicBlock) map[string]ssa.Value {
+	out := map[string]ssa.Value{}
+	for _, in := range b.Instrs {
+		dr, ok := in.(*ssa.DebugRef)
+		if !ok || dr.IsAddr {
+			continue
+		}
+		if obj := f.e.p.debugObj(dr); obj != "" {
+			out[obj] = dr.X
+		}
+	}
+	return out
 }
 
 // localsDominating maps source variable names to the SSA value holding them at block b
